@@ -230,7 +230,11 @@ def launch(pj, c, res, i, timeout=90):
     if c.get('delay'):
         time.sleep(c['delay'])
     try:
-        res[i] = run_cmd(c['argv'], pj.top, env=env, timeout=timeout, pass_fds=fds, preexec=None)
+        argv = c['argv']
+        if c.get('head') is not None:
+            # the reader of redo's messages goes away part-way (`redo ... 2>&1 | head`): every later message meets a broken pipe
+            argv = ['sh', '-c', '"$@" 2>&1 | head -n %d >/dev/null' % c['head'], 'sh'] + list(argv)
+        res[i] = run_cmd(argv, pj.top, env=env, timeout=timeout, pass_fds=fds, preexec=None)
     finally:
         if js:
             js.close()
@@ -302,6 +306,10 @@ def case(item):
                         c['slots'] = j
                 if abort == 'script-fails' and i == 0:
                     extra['RV_FAIL'] = rnd.choice(leaves[:4])
+                if abort == 'stderr-closed' and i == 0 and phase == 'A':
+                    c['head'] = rnd.choice([0, 1, 1, 2, 3])
+                    if c['argv'][0] == 'redo' and rnd.random() < 0.4:
+                        c['argv'] = [c['argv'][0], '--no-log'] + c['argv'][1:]
                 if abort == 'error-exit' and i == 0 and phase == 'A':
                     c['argv'] = ['redo-ifchange', 'cyc']
                     c['slots'] = 3      # so that jobs are running when the error is met
@@ -437,7 +445,7 @@ RULE = ('contention rounds on one project (6-12 shared leaves under 2-4 groups, 
         'the checksummed target and a second contention phase (redo-unlocked path); seeded script durations; delay hooks after child exit / '
         'before recording, after lock / before refresh, after commit, before the blocking lock wait; abort modes: a script failing in one '
         'invocation, an invocation that meets a hard error (dependency cycle) while its job runs, SIGTERM / SIGKILL to the whole session of '
-        'one invocation part-way. Monitors: (1) unified trace: a second S of a target while an earlier script of it later proves to be alive; '
+        'one invocation part-way, the reader of one invocation\'s messages going away after 0-3 lines (`2>&1 | head`, with and without --no-log). Monitors: (1) unified trace: a second S of a target while an earlier script of it later proves to be alive; '
         '(2) hook records: a lock acquired while another process later proves to have held it, a script record while no process holds the '
         "target's lock, a lock released after the job ended but before the new state was committed; (3) /proc/locks sampled every 15 ms: a "
         'script alive across a sample must be covered by a WRITE lock on its byte; (4) hand-over scenario: a later redo-ifchange waiting for a '
@@ -458,7 +466,7 @@ def main(tier):
     items = []
     for rep in range(2 if quick else 40):
         for ninv in ((2, 3, 5) if quick else (2, 3, 5, 8)):
-            for abort in (None, 'script-fails', 'error-exit', 'sigterm', 'sigkill'):
+            for abort in (None, 'script-fails', 'error-exit', 'sigterm', 'sigkill', 'stderr-closed'):
                 items.append((ninv, rnd.choice([1, 2, 4]), rnd.choice(dl), abort, rnd.randrange(10 ** 6)))
     for rep in range(1 if quick else 10):
         for d in (None, 'after_exit=150', 'after_exit=80,after_commit=60', 'after_lock=60'):
